@@ -36,6 +36,10 @@ pub struct Env {
     /// The output directory already holds (longer) files of the same names from an earlier, different run.
     #[serde(default)]
     pub dirty_out: bool,
+    /// Before the observed run, the same command is started on the same output directory and killed after this many
+    /// microseconds (a crash at an arbitrary point; only its files survive).
+    #[serde(default)]
+    pub crash_first_us: Option<u64>,
     /// Deliver stdin in chunks of this size (only for commands that read stdin).
     pub stdin_chunk: usize,
 }
@@ -62,6 +66,7 @@ impl Env {
             extra_vars: vec![],
             other_cwd: false,
             dirty_out: false,
+            crash_first_us: None,
             stdin_chunk: 1 << 20,
         }
     }
@@ -106,6 +111,7 @@ impl Env {
             },
             other_cwd: rng.pct(30),
             dirty_out: rng.pct(35),
+            crash_first_us: if rng.pct(25) { Some(*rng.pick(&[0u64, 300, 1000, 2500, 6000, 15000])) } else { None },
             stdin_chunk: *rng.pick(&[1usize, 3, 64, 4096, 1 << 20]),
         }
     }
@@ -131,6 +137,7 @@ impl Env {
             "extra_vars" => e.extra_vars.clear(),
             "cwd" => e.other_cwd = false,
             "dirty_out" => e.dirty_out = false,
+            "crash_first" => e.crash_first_us = None,
             "locale" => {
                 e.locale = None;
                 e.tz = None;
@@ -147,7 +154,7 @@ impl Env {
         e
     }
 
-    pub const DIMS: &'static [&'static str] = &["hash_seed", "dir_order", "cpus", "clock", "heap_pad", "aslr", "stack_pad", "locale", "extra_vars", "cwd", "dirty_out", "stdin_chunk"];
+    pub const DIMS: &'static [&'static str] = &["hash_seed", "dir_order", "cpus", "clock", "heap_pad", "aslr", "stack_pad", "locale", "extra_vars", "cwd", "dirty_out", "crash_first", "stdin_chunk"];
 }
 
 #[derive(Clone, Debug, PartialEq, Eq)]
@@ -202,7 +209,25 @@ pub fn interposer_totals() -> std::collections::BTreeMap<String, u64> {
 }
 
 /// Run anthem once. `extra_env` is applied last (PATH for the stand-in prover, coordinator socket).
+/// Start the same command and kill it (SIGKILL) after `after_us` microseconds: a crash at an arbitrary point.
+/// Only what it left on disk survives.
+pub fn crash_anthem(bins: &Binaries, args: &[String], cwd: &Path, env: &Env, after_us: u64) -> std::io::Result<bool> {
+    let mut cmd = build_command(bins, args, cwd, env, &[]);
+    cmd.stdin(Stdio::null()).stdout(Stdio::null()).stderr(Stdio::null());
+    let mut child = cmd.spawn()?;
+    std::thread::sleep(std::time::Duration::from_micros(after_us));
+    let was_running = matches!(child.try_wait(), Ok(None));
+    let _ = child.kill();
+    let _ = child.wait();
+    Ok(was_running)
+}
+
 pub fn run_anthem(bins: &Binaries, args: &[String], cwd: &Path, stdin: Option<&[u8]>, env: &Env, extra_env: &[(String, String)], timeout_s: u64) -> std::io::Result<ProcOut> {
+    let mut cmd = build_command(bins, args, cwd, env, extra_env);
+    run_built(&mut cmd, stdin, env, timeout_s)
+}
+
+fn build_command(bins: &Binaries, args: &[String], cwd: &Path, env: &Env, extra_env: &[(String, String)]) -> Command {
     let mut cmd = Command::new(&bins.anthem);
     cmd.args(args).current_dir(cwd);
     cmd.env_clear();
@@ -271,6 +296,10 @@ pub fn run_anthem(bins: &Binaries, args: &[String], cwd: &Path, stdin: Option<&[
             });
         }
     }
+    cmd
+}
+
+fn run_built(cmd: &mut Command, stdin: Option<&[u8]>, env: &Env, timeout_s: u64) -> std::io::Result<ProcOut> {
     cmd.stdin(if stdin.is_some() { Stdio::piped() } else { Stdio::null() });
     cmd.stdout(Stdio::piped()).stderr(Stdio::piped());
     let mut child = cmd.spawn()?;
